@@ -30,6 +30,7 @@ POLY = {
     "bar": [(F(1, 4), F(5, 4)), (F(11, 4), F(5, 4)), (F(11, 4), F(7, 4)), (F(1, 4), F(7, 4))],  # thin bar bridging the notch of you / youa
     "tinyo": [(F(-3, 4), F(-3, 4)), (F(3, 4), F(-3, 4)), (F(3, 4), F(3, 4)), (F(-3, 4), F(3, 4))],
     "tinyi": [(F(-1, 4), F(-1, 4)), (F(-1, 4), F(1, 4)), (F(1, 4), F(1, 4)), (F(1, 4), F(-1, 4))],  # clockwise
+    "notchtri": [(1, 1), (3, 1), (1, 3)],  # all vertices on the boundary of `ell`, interior in its notch
     "hbar": [(-3, F(-1, 2)), (3, F(-1, 2)), (3, F(1, 2)), (-3, F(1, 2))],
     "vbar": [(F(-2, 3), -2), (F(1, 3), -2), (F(1, 3), 2), (F(-2, 3), 2)],
     "small": [(F(1, 2), F(1, 2)), (F(3, 2), F(1, 2)), (F(3, 2), F(3, 2)), (F(1, 2), F(3, 2))],
@@ -152,10 +153,29 @@ def describe(S):
     if isinstance(S, SimpleShape):
         return {"kind": "Simple", "v": [list(p) for p in jordan_vertices(S.jordans[0])]}
     if isinstance(S, ConnectedShape):
-        return {"kind": "Connected", "sub": [describe(s) for s in S.subshapes]}
+        return {"kind": "Connected", "sub": _canon([describe(s) for s in S.subshapes])}
     if isinstance(S, DisjointShape):
-        return {"kind": "Disjoint", "sub": [describe(s) for s in S.subshapes]}
+        return {"kind": "Disjoint", "sub": _canon([describe(s) for s in S.subshapes])}
     return {"kind": type(S).__name__}
+
+
+def _canon(subs):
+    """order-insensitive listing of subshapes (the library orders them by area and breaks ties by input order, which
+    may differ between the exact symbolic run and the denominator-capped plain run)"""
+
+    def key(d):
+        pts = []
+
+        def rec(x):
+            if "v" in x:
+                pts.extend((float(val(p[0])), float(val(p[1]))) for p in x["v"])
+            for s in x.get("sub", []):
+                rec(s)
+
+        rec(d)
+        return (d["kind"], len(pts), [round(c, 6) for c in min(pts)] if pts else [], [round(c, 6) for c in max(pts)] if pts else [])
+
+    return sorted(subs, key=key)
 
 
 def concrete_region(reg):
